@@ -113,7 +113,14 @@ def work_1d(item):
             break            # one confirmed witness per space is enough; do not walk the remaining paths
         if kind == 'abort':
             if val.inconclusive:
-                res['inconclusive'].append('abort %s %r' % (val.why, item[:6]))
+                # the symbolic run stopped in something the exact environment does not model: the float run may still decide
+                prob = replay('abort', [1.0 + 0.37 * i * i - 0.2 * i for i in range(ncells + (0 if periodic else degree))])
+                if prob:
+                    res['obligations'] += 1
+                    res['violations'].append(('interp1d:%s' % path, '%r: %s (witness from the float run; symbolic run: %s)' % (item[:6], prob, val.why),
+                                              dict(kind='interp1d', item=[str(v) for v in item[:6]], concrete=prob)))
+                else:
+                    res['inconclusive'].append('abort %s %r' % (val.why, item[:6]))
             continue
         if kind == 'exc':
             res['obligations'] += 1
